@@ -190,6 +190,14 @@ Fixpoint sort_strs (l : list str) : list str :=
                  end) (sort_strs r)
   end.
 
+(* strings.Join(cs, "/"): the case files write a path as the list of its components *)
+Fixpoint P (cs : list str) : str :=
+  match cs with
+  | [] => []
+  | [c] => c
+  | c :: r => c ++ slash :: P r
+  end.
+
 Inductive case :=
 (* FindAllBuildFiles(cfg, root, prefix) on the tree t found at root: the names received from the channel,
    in order; and (prefix = "" only) the package names of the labels findOriginalTask(//root/...) added, sorted *)
